@@ -304,6 +304,11 @@ def verify_contract(I: Interp, c: Contract, prop, only_case=None, prefix=None, l
                 try:
                     v = I.inline(f, list(args), dict(kwargs), f.node)
                     goal = c.post(I, case, args, v)
+                    if isinstance(goal, list):
+                        # a postcondition given clause by clause: one obligation per clause (a refuted clause names what broke; the conjunction alone may only time out)
+                        for label, g in goal:
+                            I.oblige(f'post[{label}]', g, None, extra=label)
+                        goal = z3.BoolVal(True)
                     return 'return', dict(goal=goal, kind='post', line=0, detail=None)
                 except PyRaise as e:
                     allowed = c.raises(I, case, args, e)
